@@ -116,6 +116,16 @@ func walkLeaves(v reflect.Value, path, key string, out *[]Leaf, inKnownXR bool) 
 	}
 }
 
+// Perturb flips bits in every 32-bit scalar leaf (SSRCs, timestamps), so that two values built from the
+// same tagged base no longer carry the same numbers.
+func Perturb(p rtcp.Packet) {
+	for _, l := range Leaves(p) {
+		if l.Kind == "uint" && l.Bits == 32 && !skipKeys[l.Key] {
+			l.v.SetUint(l.v.Uint() ^ 0x00ff00ff)
+		}
+	}
+}
+
 // OverWidth sets every leaf whose Go type is wider than its wire field to a value the wire cannot
 // hold (mode 0: all ones of the Go type; mode 1: exactly 1<<width) and returns how many leaves it
 // changed. Such values are outside the well-formed domain; they are used where a property speaks
